@@ -34,6 +34,7 @@ func runC09(c *core.Ctx) {
 	c.Clause("C09.8 a snapshot being opened for a follower or a restore is pinned before its files are touched; pruning spares pinned and retained snapshots")
 	h.snapshotOpenPinned("C09.8 open-pinned")
 	h.logChangedOnlyWithoutReaders("C09.10 log-readers")
+	h.logReadersComplete("C09.11 reader-set")
 }
 
 func runC12(c *core.Ctx) {
